@@ -26,7 +26,7 @@ STRINGS = {
     "mb3": ["日本", "€uro", "한국"],
     "sym4": ["😀", "𝛑"],
     "casey": ["İzmir", "straße", "ǅem", "İİİ", "ßßß", "sıkı", "ılık", "\u212a\u212a", "ſſ"],
-    "zone": ["EST", "utc", "GMT+5:30"],
+    "zone": ["EST", "utc", "GMT+5:30", "ßt"],      # upper-cased, `ßt` is the zone SST: a match on a case-mapped copy is longer than the text
     "month": ["march", "ocak", "Dec"],
 }
 KIND = {"num": "Number", "frac": "Number", "based": "Number", "op": "Operator"}
